@@ -33,7 +33,7 @@ checks = {
    note="trusted base as C01; limits scaled down consistently, a slice runs at the shipped 1 MiB sizes"),
  "C11": dict(engine="world-A", cat="exploration", ref="DESIGN.md §5 C11",
    text="same world with chunk limits scaled down and sizes around them in all three Forward modes; every chunk that reaches the upstream or the disk (after spill, retry, recovery) is checked for well-formedness, self-description, id uniqueness, completeness and order. What simulation adds is the write/flush interleaving, ids cut at one clock instant and across restarts, and checking what actually arrives.",
-   note="trusted base as C01; the Datadog format is not part of this world"),
+   note="trusted base as C01; the Datadog chunk maker and serializer run for real in profile c11dd, the Datadog HTTP client (net/http, no seam) is replaced by a consumer that never takes a chunk"),
  "C12": dict(engine="world-A", cat="exploration", ref="DESIGN.md §5 C12",
    text="same world with every record pooled and the pool driven adversarially by the decision stream, several connections interleaved into shared pipelines; every delivered event, on one or two outputs, must equal the event of its own record on a fresh single-record pipeline for that output; configuration with per-record flags (unescape), composed fields in the input extractions and late conditional fields; released buffers poisoned in half of the runs.",
    note="trusted base as C01; percentage sampling excluded (documented as stateful); a violation that depends on Go's per-map hash seed does not replay and is reported as harness error, not as violation (DESIGN.md §11.2 defect 16)"),
